@@ -254,8 +254,23 @@ func runC05(c *core.Ctx) {
 	// ---- R05.2 amd64 vector shift masks
 	if p := c.Pkg("internal/engine/wazevo/backend/isa/amd64"); p != nil {
 		pinfo := p.TypesInfo
+		// the per-lane helpers the vector-shift lowerings dispatch to (one level), whatever they are called
+		vshiftHelpers := map[string]bool{}
 		core.AllFuncDecls(p, func(fd *ast.FuncDecl) {
-			if !regexp.MustCompile(`^lowerV(Ishl|Ushr|Sshr)`).MatchString(fd.Name.Name) {
+			if !regexp.MustCompile(`(?i)^lowerV.*(shl|shr)`).MatchString(fd.Name.Name) {
+				return
+			}
+			ast.Inspect(fd.Body, func(x ast.Node) bool {
+				if call, ok := x.(*ast.CallExpr); ok {
+					if f := core.Callee(pinfo, call); f != nil && f.Pkg() == p.Types && strings.HasPrefix(f.Name(), "lower") {
+						vshiftHelpers[f.Name()] = true
+					}
+				}
+				return true
+			})
+		})
+		core.AllFuncDecls(p, func(fd *ast.FuncDecl) {
+			if !regexp.MustCompile(`(?i)^lowerV.*(shl|shr)`).MatchString(fd.Name.Name) && !vshiftHelpers[fd.Name.Name] {
 				return
 			}
 			var bad []string
@@ -285,7 +300,7 @@ func runC05(c *core.Ctx) {
 			})
 			// single-lane helpers (lowerVUshri8x16 …) carry the mask as an immediate: `newOperandImm32(0x7)` with AND
 			if n == 0 {
-				if m := regexp.MustCompile(`i(\d+)x\d+$`).FindStringSubmatch(fd.Name.Name); m != nil {
+				if m := regexp.MustCompile(`(?i)i(\d+)x\d+$`).FindStringSubmatch(fd.Name.Name); m != nil {
 					lane, _ := strconv.Atoi(m[1])
 					ast.Inspect(fd.Body, func(x ast.Node) bool {
 						call, ok := x.(*ast.CallExpr)
